@@ -636,3 +636,31 @@ def _argsig(v: tuple) -> tuple:
     if v[0] == "view":
         return ("content", v[2])
     return OTHER
+
+
+def check_wrappers(ctx, methods: list[str], rule: str = "VIEW") -> None:
+    """Typestate obligations (TS1/TS3 + problems) for the given Sequence wrapper methods only: the operation's effect must be
+    visible through both views afterwards (the other view invalidated), from each of the 3 valid freshness states."""
+    eng = TypestateEngine(ctx.p, "Sequence")
+    for m in methods:
+        fi = eng.ci.methods.get(m)
+        if fi is None:
+            raise AnalysisError(f"Sequence.{m} not found")
+        ctx.analysed(fi)
+        for pname, pre in PRE_STATES.items():
+            exits, problems, _ = eng.analyse_method(m, pre)
+            label = f"Sequence.{m} from [{pname}]"
+            bad = False
+            for pr in problems:
+                bad = True
+                ctx.violation(rule, label, function=fi.qualname, construct=pr.construct, message=pr.msg, file=fi.file, node=pr.node)
+            for node, w, how in exits:
+                ok, why = w.inv_ok()
+                if not ok:
+                    bad = True
+                    ctx.violation(rule, label, function=fi.qualname, construct=f"exit state violates the view invariant: {why}",
+                                  message=f"{label}: {why} on exit -- the operation's effect is not visible through both views "
+                                          f"(a view that was not updated is still marked fresh, or both are stale)", file=fi.file,
+                                  node=node if node is not None else fi.node)
+            if not bad:
+                ctx.ok(rule, label, "both views consistent afterwards")
